@@ -12,6 +12,7 @@ type funSigT struct {
 }
 
 var preludeText string
+var preludeNoQuant string // prelude without quantified axioms (for cover queries)
 var preludeSigs = map[string]funSigT{}
 
 // sexp is a minimal s-expression: atom or list.
@@ -112,6 +113,15 @@ func loadPrelude(verifDir string) error {
 		sb.WriteString("\n")
 	}
 	preludeText = sb.String()
+	var nq strings.Builder
+	for _, s := range parseSexps(preludeText) {
+		if s.isList && len(s.list) > 0 && s.list[0].atom == "assert" && strings.Contains(s.String(), "forall") {
+			continue
+		}
+		nq.WriteString(s.String())
+		nq.WriteString("\n")
+	}
+	preludeNoQuant = nq.String()
 	for _, s := range parseSexps(preludeText) {
 		if !s.isList || len(s.list) < 3 {
 			continue
